@@ -198,8 +198,9 @@ def alleneSign (mark : Int) (u v w : V2) : Int := sgn (alleneDot mark u v w)
 /-- writer: `atom.implicit_hydrogens and next(x for x in adjacency) == n` -/
 def writerInverts (implH : Nat) (isFirstOfComponent : Bool) : Bool := implH != 0 && isFirstOfComponent
 
-/-- reader: `not i and atoms[n].implicit_hydrogens` (`i` = index of the atom token in the string) -/
-def readerInverts (i : Nat) (implH : Nat) : Bool := i == 0 && implH != 0
+/-- reader: `i in data['starts'] and atoms[n].implicit_hydrogens` (`starts` = atom tokens without a preceding atom:
+the first one and those after a dot; before commit 8b29359 the test was `not i`, see known_findings/C12.json) -/
+def readerInverts (isStart : Bool) (implH : Nat) : Bool := isStart && implH != 0
 
 /-- `_format_atom`, tetrahedron branch. `true` = `'@'`, `false` = `'@@'`.
 `adj = adjacency[n]` (predecessor, ring closures by closure number, children). -/
@@ -209,9 +210,10 @@ def writerTetraMark (order adj : List Nat) (isH : Nat → Bool) (stored : Option
   pure (if writerInverts implH isFirstOfComponent then !t else t)
 
 /-- `postprocess_molecule` + `add_atom_stereo`, tetrahedron branch: the label stored for mark `mark`
-(`true` = `'@'`) on token number `i` whose text-order neighbours are `env`. -/
-def readerTetraSign (order env : List Nat) (isH : Nat → Bool) (i implH : Nat) (mark : Bool) : Except PyErr Bool :=
-  translateTetra order env isH none (some (if readerInverts i implH then !mark else mark))
+(`true` = `'@'`) on an atom token whose text-order neighbours are `env`. -/
+def readerTetraSign (order env : List Nat) (isH : Nat → Bool) (isStart : Bool) (implH : Nat) (mark : Bool) :
+    Except PyErr Bool :=
+  translateTetra order env isH none (some (if readerInverts isStart implH then !mark else mark))
 
 /-- `tuple.__contains__` on `(n0, n1, n2, n3)` for an int -/
 def Ends.contains (e : Ends) (x : Nat) : Bool :=
